@@ -106,6 +106,7 @@ func zzC16Wrapper() {
 	outcome := vChoice("handlerOutcome", 5)
 	ownContent := vBool("handlerSuppliesContent")
 	handlerOut := map[string]any{"answer": 42.0}
+	presets := vBool("handlerPresetsStructuredContent")
 	h := func(ctx context.Context, req *CallToolRequest, in map[string]any) (*CallToolResult, map[string]any, error) {
 		calls++
 		gotIn = in
@@ -115,6 +116,11 @@ func zzC16Wrapper() {
 				return &CallToolResult{Content: []Content{&TextContent{Text: "mine"}}}, handlerOut, nil
 			}
 			if outcome == 1 {
+				if presets {
+					// the handler also filled StructuredContent by hand, with something no schema ever saw: what the
+					// client gets is still the typed output, defaulted and validated
+					return &CallToolResult{StructuredContent: map[string]any{"answer": 7.0, "unvalidated": true}}, handlerOut, nil
+				}
 				return &CallToolResult{}, handlerOut, nil
 			}
 			return nil, handlerOut, nil
